@@ -18,6 +18,7 @@ struct Cfg {
     drop_after: Option<usize>,    // consumer disappears after that many messages
     sort: bool,
     filter_ecu: Option<u8>,
+    tail: usize,                  // live tail: messages the producer keeps sending (1 s apart) once the consumer is gone
     msgs: Vec<M>,
 }
 
@@ -41,6 +42,7 @@ fn parse(case: &str) -> Cfg {
         drop_after: if opts[0] < 0 { None } else { Some(opts[0] as usize) },
         sort: opts[1] == 1,
         filter_ecu: if opts[2] < 0 { None } else { Some(opts[2] as u8) },
+        tail: opts.get(3).copied().unwrap_or(0).max(0) as usize,
         msgs: parse_case(p[4].trim()),
     }
 }
@@ -110,7 +112,7 @@ fn run_unbounded(c: &Cfg) -> String {
     render(&out, &lcs_r, c.sort)
 }
 
-fn run_bounded(c: &Cfg) -> (String, bool) {
+fn run_bounded(c: &Cfg) -> (String, bool, Option<bool>) {
     let (tx0, rx0) = sync_channel(c.caps[0]);
     let (tx1, rx1) = sync_channel(c.caps[1]);
     let (tx2, rx2) = sync_channel(c.caps[2]);
@@ -121,7 +123,13 @@ fn run_bounded(c: &Cfg) -> (String, bool) {
     let msgs = c.msgs.clone();
     let ppace = c.ppace.clone();
     let d0 = done_tx.clone();
+    let tail = c.tail;
+    let gone = std::sync::Arc::new(std::sync::atomic::AtomicBool::new(false));
+    let gone_p = gone.clone();
+    let perr = std::sync::Arc::new(std::sync::atomic::AtomicBool::new(false));
+    let perr_p = perr.clone();
     let t0 = std::thread::spawn(move || {
+        let mut failed = false;
         for (i, m) in msgs.iter().enumerate() {
             if let Some((_, ms)) = ppace.iter().find(|(k, _)| *k == i) {
                 std::thread::sleep(Duration::from_millis(*ms));
@@ -129,9 +137,29 @@ fn run_bounded(c: &Cfg) -> (String, bool) {
             let mut d = mk(m);
             d.index = i as u32;
             if sync_sender_send_delay_if_full(d, &tx0).is_err() {
+                failed = true;
                 break;
             }
         }
+        if tail > 0 && !failed {
+            // a live source: it keeps producing after the consumer has gone, until it is told to stop (send error)
+            let t_wait = std::time::Instant::now();
+            while !gone_p.load(std::sync::atomic::Ordering::SeqCst) && t_wait.elapsed() < Duration::from_secs(30) {
+                std::thread::sleep(Duration::from_millis(1));
+            }
+            let last = msgs.iter().filter(|m| m.ecu == 0).last().copied().unwrap_or(M { ecu: 0, recv: 1_700_000_000_000_000, ts: 0, has_ts: true, ctrl: false });
+            let base_recv = msgs.iter().map(|m| m.recv).max().unwrap_or(last.recv);
+            for k in 0..tail {
+                let m = M { ecu: 0, recv: base_recv + (k as u64 + 1) * 1_000_000, ts: last.ts.saturating_add((k as u32 + 1) * 10_000), has_ts: true, ctrl: false };
+                let mut d = mk(&m);
+                d.index = (msgs.len() + k) as u32;
+                if sync_sender_send_delay_if_full(d, &tx0).is_err() {
+                    failed = true;
+                    break;
+                }
+            }
+        }
+        perr_p.store(failed, std::sync::atomic::Ordering::SeqCst);
         drop(tx0);
         let _ = d0.send(0);
     });
@@ -183,12 +211,14 @@ fn run_bounded(c: &Cfg) -> (String, bool) {
         if let Some((_, ms)) = c.cpace.iter().find(|(k, _)| *k == out.len()) {
             std::thread::sleep(Duration::from_millis(*ms));
         }
-        match rx4.recv_timeout(Duration::from_secs(20)) {
+        // (with a live tail the producer does not close its channel: the consumer also leaves after 300 ms of silence)
+        match rx4.recv_timeout(if c.tail > 0 { Duration::from_millis(300) } else { Duration::from_secs(20) }) {
             Ok(m) => out.push(m),
             Err(_) => break,
         }
     }
     drop(rx4); // the consumer disappears (or everything was delivered)
+    gone.store(true, std::sync::atomic::Ordering::SeqCst);
     // every stage has to terminate
     let mut finished = 0;
     let deadline = std::time::Instant::now() + Duration::from_secs(20);
@@ -205,18 +235,22 @@ fn run_bounded(c: &Cfg) -> (String, bool) {
         let _ = t2.join();
         let _ = t3.join();
         let _ = t4.join();
-        (render(&out, &lcs_r, c.sort), true)
+        (render(&out, &lcs_r, c.sort), true, if c.tail > 0 { Some(perr.load(std::sync::atomic::Ordering::SeqCst)) } else { None })
     } else {
         // leak the stuck threads; report
-        (render(&out, &lcs_r, c.sort), false)
+        (render(&out, &lcs_r, c.sort), false, None)
     }
 }
 
 fn run(case: &str) -> String {
     let c = parse(case);
     let u = run_unbounded(&c);
-    let (b, term) = run_bounded(&c);
-    format!("B {} # U {} # term={}", b, u, term as u8)
+    let (b, term, perr) = run_bounded(&c);
+    format!("B {} # U {} # term={} # perr={}", b, u, term as u8, match perr {
+        Some(true) => "1",
+        Some(false) => "0",
+        None => "-",
+    })
 }
 
 fn gen(rng: &mut Rng, tier: u32) -> String {
@@ -232,9 +266,22 @@ fn gen(rng: &mut Rng, tier: u32) -> String {
     let pp = pace(rng);
     let cp = pace(rng);
     let drop = if rng.chance(4) { rng.below(nm as u64 + 1) as i64 } else { -1 };
-    let sort = rng.chance(4);
-    let fe = if rng.chance(3) { rng.below(3) as i64 } else { -1 };
-    format!("{} | {} | {} | {} {} {} | {}", caps.join(" "), pp, cp, drop, sort as u8, fe, lcs)
+    let mut sort = rng.chance(4);
+    let mut fe = if rng.chance(3) { rng.below(3) as i64 } else { -1 };
+    // a live source behind a small first channel: once the consumer is gone the producer has to be stopped by a send error
+    let mut caps = caps;
+    let mut tail = 0;
+    if drop >= 0 && rng.chance(2) {
+        tail = 300;
+        sort = false;
+        if fe > 0 {
+            fe = 0;
+        }
+        if caps[0] == "1000" {
+            caps[0] = "2".to_string();
+        }
+    }
+    format!("{} | {} | {} | {} {} {} {} | {}", caps.join(" "), pp, cp, drop, sort as u8, fe, tail, lcs)
 }
 
 impl Area for Pipe {
